@@ -217,7 +217,7 @@ def random_input(rng, op):
         return inp
     # exclude files
     all_runs = [(k + 1, s, e) for k, t in enumerate(seqs) for s, e in _runs(t)]
-    nfiles = rng.choice([0, 0, 1, 1, 1, 2, 3])
+    nfiles = rng.choice([0, 0, 1, 1, 2, 2, 3])
     n_gaps = []
     for t in seqs:
         rs = _runs(t)
@@ -266,6 +266,8 @@ def random_input(rng, op):
         if rng.random() < 0.75:
             rows.sort()
         inp["excl"].append([[r[0], r[1], r[2], ""] for r in rows])
+    if nfiles >= 2 and rng.random() < 0.25:
+        _cross_file(rng, inp, all_runs, seqs)
     # minimum gap: on / next to an existing gap, or anything in 0..300
     ex_w = [r[2] - r[1] for t in inp["excl"] for r in t]
     k = rng.random()
@@ -278,6 +280,55 @@ def random_input(rng, op):
         inp["gap"] = rng.randint(0, 300)
     inp["skip"] = rng.random() < 0.5
     return inp
+
+
+def _cross_file(rng, inp, all_runs, seqs):
+    """Exclude style "cross-file": a row of a LATER file strictly contains / lies inside / overlaps the left or right
+    end of / equals a row of an EARLIER file (both file orders), inside a region where it matters; and rows on different
+    contigs given in non-natural order across files.  Mostly the files hold nothing else (so that, pooled in file order,
+    the rows are unsorted by start while their ends still ascend)."""
+    files = inp["excl"]
+    nseq = len(seqs)
+    wide = [r for r in all_runs if r[2] - r[1] >= 8]
+    if wide:
+        c, s, e = rng.choice(wide)
+        a = rng.randint(s + 2, e - 4)
+        b = rng.randint(a + 2, e - 2)
+    else:
+        c = rng.randint(1, nseq)
+        a = rng.randint(2, 60)
+        b = a + rng.randint(2, 40)
+    base = [c, a, b, ""]
+    shape = rng.choice(["contains", "contains", "inside", "left", "right", "equal"])
+    if shape == "contains":
+        other = [c, a - rng.randint(1, 2), b + rng.randint(1, 2), ""]
+    elif shape == "inside":
+        x = rng.randint(a, b - 1)
+        other = [c, x, rng.randint(x + 1, b), ""]
+        if other[1:3] == base[1:3]:
+            other[2] -= 1 if other[2] - other[1] > 1 else 0
+    elif shape == "left":
+        other = [c, a - rng.randint(1, 2), rng.randint(a + 1, b - 1), ""]
+    elif shape == "right":
+        other = [c, rng.randint(a + 1, b - 1), b + rng.randint(1, 2), ""]
+    else:
+        other = list(base)
+    i, j = sorted(rng.sample(range(len(files)), 2))
+    first, later = (base, other) if rng.random() < 0.5 else (other, base)
+    pure = rng.random() < 0.6
+    if pure:
+        for f in files:
+            del f[:]
+    files[i].append(first)
+    files[j].append(later)
+    if nseq >= 2 and rng.random() < 0.5:          # contigs in non-natural order across the files
+        c2 = rng.choice([k for k in range(1, nseq + 1) if k != c])
+        lo, hi = sorted((c, c2))
+        w = rng.randint(1, 30)
+        st = rng.randint(0, 50)
+        files[i].append([hi, st, st + w, ""])
+        files[j].append([lo, b + 3 + st, b + 3 + st + w, ""] if pure else [lo, st, st + w, ""])
+    inp["cross_file"] = shape
 
 
 # ---------------------------------------------------------------------------------------- counters (never verdicts)
@@ -352,6 +403,22 @@ def _count_boundaries(ctx, rec):
                 ctx.bump("exclude_rows_nested" if y[2] <= x[2] else "exclude_rows_overlapping")
         if rec["skip"]:
             ctx.bump("skip_noncanonical_on")
+        files = rec["excl"]
+        for i in range(len(files)):
+            for j in range(i + 1, len(files)):
+                for x in files[i]:
+                    for y in files[j]:
+                        if x[0] == y[0]:
+                            if y[1] < x[1] and y[2] > x[2]:
+                                ctx.bump("later_file_row_strictly_contains_earlier")
+                            elif x[1] <= y[1] and y[2] <= x[2] and x[:3] != y[:3]:
+                                ctx.bump("later_file_row_inside_earlier")
+                            elif x[:3] == y[:3]:
+                                ctx.bump("later_file_row_equals_earlier")
+                            elif y[1] < x[2] and x[1] < y[2]:
+                                ctx.bump("later_file_row_overlaps_earlier")
+                        elif y[0] < x[0]:
+                            ctx.bump("contigs_in_non_natural_order_across_files")
 
 
 # ---------------------------------------------------------------------------------------- run
@@ -426,10 +493,11 @@ def run(ctx: Ctx):
     LC = 3 if thorough else 2         # two-sequence contig scope
     ctx.rule = ("direction 1: every state of MC_Access -- all FASTA texts of <= 2 sequences, total length <= "
                 f"{L} over {{N, n, A}} at every line width 1..4 (get_regions), and all one-sequence texts of length <= 4 over {{N, A}} x "
-                "exclude sets of <= 2 rows (one or two files) x min_gap 0..3 (thorough: length <= 5, 0..4), plus two-sequence texts x contig names x "
+                "exclude sets of <= 2 rows (one file, or two files in every order) x min_gap 0..3 (thorough: length <= 5, 0..4), plus two-sequence texts x contig names x "
                 "skip_noncanonical (do_access) -- written as real FASTA/BED files and replayed; direction 2: seeded random "
                 "FASTA texts (1..4 sequences incl. empty, runs 0..200 of N/n/ACGT/acgt, widths 1..80, blank lines, CRLF, "
-                "header descriptions), exclude BEDs (touching edges, nested, overlapping, unknown contigs, unsorted), "
+                "header descriptions), exclude BEDs (touching edges, nested, overlapping, unknown contigs, unsorted; for 25% of the "
+                "cases with >= 2 files a later file's row contains / is inside / overlaps / equals an earlier file's), "
                 "min_gap 0..300, names of every class of the contig-name rule and near misses. A case is distinct by "
                 "(op, fasta lines, exclude files, min_gap, skip); non-trivial when some sequence has a non-N character.")
     alpha3 = [N, LOWER_N, A]
